@@ -23,6 +23,9 @@ def parseMult : String → Option Bool
 /-- `new START` · `proc A|N TAG M|S all` · `proc A|N TAG M|S take K` -/
 def smootherStep (legacy : Bool) (s : Option St) (toks : List String) : Option St × List String :=
   match toks with
+  -- `ConfirmSmoother::default()` and `ConfirmSmoother::new()`: the first expected tag is 1
+  | ["default"] => (some (Smoother.new 1), ["ok"])
+  | ["new-plain"] => (some (Smoother.new 1), ["ok"])
   | ["new", n] =>
     match n.toNat? with
     | some k => (some (Smoother.new k), ["ok"])
@@ -55,6 +58,8 @@ structure SpecSt where
 
 def smootherSpecStep (s : Option SpecSt) (toks : List String) : Option SpecSt × List String :=
   match toks with
+  | ["default"] => (some ⟨1, [], true⟩, ["ok"])
+  | ["new-plain"] => (some ⟨1, [], true⟩, ["ok"])
   | ["new", n] =>
     match n.toNat? with
     | some k => (some ⟨k, [], true⟩, ["ok"])
